@@ -428,6 +428,134 @@ def readout_ctor(u: Unit):
     u.cover("readout.start_time.cover", ps, lambda p: p.kind == "return")
 
 
+FILE_REPLAY = lambda w: {"code": """
+import numpy as np, tempfile, os
+from pyxel.exposure import Readout
+d = tempfile.mkdtemp()
+want = [1.0, 2.0, 4.0, 8.0]
+files = {}
+files['column.txt'] = os.path.join(d, 'column.txt'); open(files['column.txt'], 'w').write('\\n'.join(str(x) for x in want) + '\\n')
+files['row.csv'] = os.path.join(d, 'row.csv'); open(files['row.csv'], 'w').write(','.join(str(x) for x in want) + '\\n')
+for name, arr in (('vec.npy', np.array(want)), ('row.npy', np.array([want])), ('square.npy', np.array(want).reshape(2, 2)), ('col.npy', np.array(want).reshape(4, 1))):
+    files[name] = os.path.join(d, name); np.save(files[name], arr)
+VIOLATED, DETAIL = False, 'every time written in the file is a readout time, in file order'
+for name, fn in files.items():
+    try:
+        r = Readout(times_from_file=fn, start_time=0.5)
+    except Exception as e:
+        continue          # a layout the loader refuses is not a wrong schedule
+    if list(r.times) != want or not np.allclose(r.steps, np.diff([0.5] + want)):
+        VIOLATED, DETAIL = True, f'{name} holds the times {want}; the readout built from it has times {list(r.times)}'; break
+""", "expect": "Readout(times_from_file=...) takes every value of the table, in file order"}
+
+
+@unit("C02", "readout.ctor.file")
+def readout_ctor_file(u: Unit):
+    """Readout.__init__ with times_from_file: the schedule is EVERY cell of the loaded table in row-major (file) order — tables of one
+    column, one row or several columns (column count 1..3, symbolic row count); the loader (load_table: C20) is the boundary."""
+    fi = u.fn(f"{RO}::Readout.__init__")
+    ci = u.cls(f"{RO}::Readout")
+    CELL = z3.Function("table_cell", z3.IntSort(), z3.IntSort(), z3.RealSort())
+    TR = z3.Int("table_rows")
+    for ncols in (1, 2, 3):
+        cfg = Cfg("real")
+
+        def load(ex, f, args, kwargs, fr):
+            ex.hold["loaded"] = args[0] if args else kwargs.get("filename")
+            return VOpaque("table", None, {})
+        cfg.lib_overrides["pyxel.inputs.load_table"] = load
+        cfg.contracts["pyxel/inputs/loader.py::load_table"] = Contract("pyxel/inputs/loader.py::load_table", lambda ex, args, kwargs, fr: load(ex, None, args, kwargs, fr), "C20: the table of the file")
+        cfg.lib_overrides[("opaque_attr", "table")] = lambda ex, obj, name, fr: VLib("table.to_numpy", obj) if name == "to_numpy" else (_ for _ in ()).throw(Unsupported(f"DataFrame.{name} of the loaded table"))
+        cfg.lib_overrides["table.to_numpy"] = lambda ex, f, args, kwargs, fr, ncols=ncols: ex.st.alloc(HArr((TR, ncols), VDtype("float64"), lambda ix: VFloat(CELL(z_int(ix[0]), z_int(ix[1])))))
+
+        def setup(ex):
+            ex.hold = {}
+            ex.st.assume(z3.And(TR >= 1, GI >= 0))
+            ex.st.ghost["generic"] = [(GI,)]
+            obj = ex.st.alloc(HObj(ci, {}))
+            ex.self_ref = obj
+            ex.fn_arg = VStr(z3.String("times_file"))
+            ex.st.assume(z3.Length(ex.fn_arg.v) > 0)
+            return [obj], {"times": NONE, "times_from_file": ex.fn_arg, "start_time": VFloat(START), "non_destructive": VBool(z3.Bool("non_destructive"))}
+        ps = u.paths(fi, setup, cfg, label=f"Readout.__init__[file, {ncols} columns]")
+        for p in ps:
+            if p.kind != "return":
+                continue
+            f = p.st.cell(p.ex.self_ref).fields
+            tc = p.st.cell(f["_times"]) if p.ex.is_arr(f.get("_times")) else None
+            ok = tc is not None and len(tc.shape) == 1 and p.ex.hold.get("loaded") is p.ex.fn_arg
+            u.oblige(p, f"readout.file.every_cell_in_file_order[{ncols}]",
+                     z3.And(z_int(tc.shape[0]) == TR * ncols, z3.Implies(GI < TR * ncols, to_real(tc.elem((GI,))) == CELL(GI / ncols, GI % ncols))) if ok else z3.BoolVal(False),
+                     {"rows": TR, "g_i": GI}, FILE_REPLAY, info={"small": [TR, GI]})
+        u.cover(f"readout.file.cover[{ncols}]", ps, lambda p: p.kind == "return")
+
+
+STANDIN = {r"readout\.ctor\.file": FILE_REPLAY}
+
+
+REPLACE_REPLAY = lambda w: {"code": """
+import numpy as np
+from pyxel.exposure import Readout
+VIOLATED, DETAIL = False, 'replace() changes what it is asked to change and keeps the rest of the schedule'
+for start, nd in ((0.0, False), (0.5, True), (-1.0, False)):
+    r = Readout(times=[1.0, 2.0, 4.0], start_time=start, non_destructive=nd)
+    for changes, want in ((dict(times=[3.0, 5.0]), ([3.0, 5.0], start, nd)), (dict(times=[2.0, 3.0], start_time=0.25), ([2.0, 3.0], 0.25, nd)),
+                          (dict(times=[1.5, 2.5, 4.5], non_destructive=not nd), ([1.5, 2.5, 4.5], start, not nd))):
+        n = r.replace(**changes)
+        got = (list(n.times), n.start_time, n.non_destructive)
+        if got != want or n is r or not np.array_equal(n.steps, np.diff([want[1]] + want[0])):
+            VIOLATED, DETAIL = True, f'Readout(start_time={start}, non_destructive={nd}).replace({changes}) -> times {got[0]} start {got[1]} non_destructive {got[2]} steps {n.steps.tolist()}'; break
+    if list(r.times) != [1.0, 2.0, 4.0] or r.start_time != start:
+        VIOLATED, DETAIL = True, 'replace() changed the original readout'
+""", "expect": "Readout.replace keeps times / start time / mode unless asked to change them"}
+
+
+@unit("C02", "readout.replace")
+def readout_replace(u: Unit):
+    """Readout.replace(**changes) (used by the parallel observation when the readout times are swept): a NEW Readout built from the given
+    changes and, for everything not changed, from this readout's own times, start time and mode (the constructor is unit readout.ctor)."""
+    fi = u.fn(f"{RO}::Readout.replace")
+    ci = u.cls(f"{RO}::Readout")
+    # (without new times the constructor is handed the stored ndarray, whose truth value it tests: a ValueError for more than one readout
+    # time on the unchanged tree — an API defect outside the listed properties; the sweep over readout times always passes `times`)
+    for changed in (("times",), ("times", "start_time"), ("times", "non_destructive")):
+        cfg = Cfg("real")
+        q = f"{RO}::Readout.__init__"
+        cfg.contracts[q] = Contract(q, lambda ex, args, kwargs, fr: (ex.hold.__setitem__("ctor", (list(args[1:]), dict(kwargs))), ex.hold.__setitem__("new", args[0]), NONE)[2], "readout.ctor")
+
+        def setup(ex, changed=changed):
+            ex.hold = {"times": VOpaque("xr", None, {"label": "own times"}), "new_times": VOpaque("xr", None, {"label": "new times"})}
+            me = ex.st.alloc(HObj(ci, {"_times": ex.hold["times"], "_start_time": VFloat(START), "_non_destructive": VBool(z3.Bool("non_destructive"))}))
+            ex.me = me
+            kw = {}
+            if "times" in changed:
+                kw["times"] = ex.hold["new_times"]
+            if "start_time" in changed:
+                kw["start_time"] = VFloat(z3.Real("new_start"))
+            if "non_destructive" in changed:
+                kw["non_destructive"] = VBool(z3.Bool("new_mode"))
+            return [me], kw
+        tag = "+".join(changed) or "nothing"
+        ps = u.paths(fi, setup, cfg, label=f"Readout.replace[{tag}]")
+        for p in ps:
+            if p.kind != "return":
+                u.oblige(p, f"readout.replace.no_raise[{tag}]", False, {"exc": p.exc_name()}, REPLACE_REPLAY)
+                continue
+            a, k = p.ex.hold.get("ctor", ([], {}))
+            names = ["times", "times_from_file", "start_time", "non_destructive"]
+            for i, v in enumerate(a):
+                k.setdefault(names[i], v)
+            t_ok = k.get("times") is (p.ex.hold["new_times"] if "times" in changed else p.ex.hold["times"])
+            st_v, nd_v = k.get("start_time"), k.get("non_destructive")
+            goal = z3.And(zb(bool(t_ok and isinstance(st_v, VFloat) and isinstance(nd_v, VBool) and isinstance(p.value, VRef) and p.value.addr != p.ex.me.addr)),
+                          (to_real(st_v) == (z3.Real("new_start") if "start_time" in changed else START)) if isinstance(st_v, VFloat) else z3.BoolVal(False),
+                          (z_bool(nd_v.v) == (z3.Bool("new_mode") if "non_destructive" in changed else z3.Bool("non_destructive"))) if isinstance(nd_v, VBool) else z3.BoolVal(False))
+            u.oblige(p, f"readout.replace.keeps_what_is_not_changed[{tag}]", goal, {"start": START, "new_start": z3.Real("new_start")}, REPLACE_REPLAY)
+            f = p.st.cell(p.ex.me).fields
+            u.oblige(p, f"readout.replace.original_untouched[{tag}]", z3.And(zb(f["_times"] is p.ex.hold["times"]), to_real(f["_start_time"]) == START), {}, REPLACE_REPLAY)
+        u.cover(f"readout.replace.cover[{tag}]", ps, lambda p: p.kind == "return")
+
+
 # ---- the per-step reset is the same for every detector type (overrides of Detector.empty included) --------------------------
 EMPTY_REPLAY = lambda w: {"code": """
 import numpy as np
